@@ -381,7 +381,23 @@ def _div(a, b):
         return sx.div(a, b)
     ex = current()
     if ex is not None:
-        if not ex._feasible(bz):
+        # one feasibility query per divisor term and path (a row divided by its standard deviation asks once, not once per cell);
+        # the path condition only grows, so "infeasible" stays valid and a stale "feasible" merely keeps the NaN flag (sound)
+        cache = ex.__dict__.setdefault("_divz", {})
+        key = (len(ex.decisions), bz.get_id()) if isinstance(bz, z3.ExprRef) else None
+        hit = None
+        if key is not None:
+            for (nd, tid), (term, ans) in list(cache.items()):
+                if tid == key[1] and nd <= key[0] and term.eq(bz) and ans is False:
+                    hit = False
+                    break
+                if tid == key[1] and nd == key[0] and term.eq(bz):
+                    hit = ans
+                    break
+        feas = ex._feasible(bz) if hit is None else hit
+        if key is not None and hit is None:
+            cache[key] = (bz, feas)
+        if not feas:
             return sx.div(a, b)
         ex.note_divisor(b)
     a2, b2 = sx.to_nf(a), sx.to_nf(b)
@@ -556,6 +572,7 @@ class Explorer:
         self.extra = []
         self.nfresh = 0
         self.zero_divisors = []
+        self._divz = {}
         self.solver = z3.Solver()
         self.solver.set("timeout", self.feas_timeout_ms)
         for h in self.hyps:
